@@ -189,6 +189,12 @@ func (r *Result) Write() {
 	r.mu.Lock()
 	defer r.mu.Unlock()
 	r.WallS = time.Since(r.start).Seconds()
+	if r.Samples == nil {
+		r.Samples = []any{}
+	}
+	if r.Violations == nil {
+		r.Violations = []Violation{}
+	}
 	sort.SliceStable(r.Violations, func(i, j int) bool { return r.Violations[i].Sig < r.Violations[j].Sig })
 	data, err := json.MarshalIndent(r, "", " ")
 	if err != nil {
